@@ -87,7 +87,8 @@ impl Scenario for StakingScenario {
             tags.extend(g(s, a, &ap, &n).into_iter().map(|t| format!("goal:{t}")));
         }
         let next = if n != *s { Some(n) } else { None };
-        Step { next, violations, tags, validated: 1 }
+        let digest = event_digest(a, &ap);
+        Step { next, violations, tags, validated: 1, digest }
     }
     fn on_state(&self, s: &Sim) -> StateObs {
         let mut o = StateObs { violations: state_monitors(&self.props, s), tags: vec![], probes: 0 };
@@ -111,4 +112,28 @@ pub fn panic_site(m: &str) -> String {
     let file = parts.next().unwrap_or(loc);
     let file = file.rsplit('/').next().unwrap_or(file);
     format!("{file}:{line}")
+}
+
+/// digest of a transition that does not depend on the token-factory module of the target chain:
+/// token-factory messages are abstracted to (op, sender, denom, amount, holder)
+pub fn event_digest(a: &Act, ap: &Applied) -> u64 {
+    use mwsim::world::Ev;
+    use std::hash::{Hash, Hasher};
+    let mut h = std::collections::hash_map::DefaultHasher::new();
+    format!("{:?}", a).hash(&mut h);
+    ap.out.ok.hash(&mut h);
+    let mut all: Vec<&Ev> = ap.out.events.iter().collect();
+    for (_, o) in &ap.acks {
+        all.extend(o.events.iter());
+    }
+    for e in all {
+        let s = match e {
+            Ev::CreateDenom { sender, subdenom, .. } => format!("create|{sender}|{subdenom}"),
+            Ev::Mint { sender, denom, amount, to, .. } => format!("mint|{sender}|{denom}|{amount}|{to}"),
+            Ev::Burn { sender, denom, amount, from, .. } => format!("burn|{sender}|{denom}|{amount}|{from}"),
+            other => format!("{:?}", other),
+        };
+        s.hash(&mut h);
+    }
+    h.finish() | 1
 }
